@@ -351,6 +351,61 @@ func c11BlindEnum(c *core.Ctx, k *core.Case) {
 	c.NonTrivial(core.HashU64(0x11b, uint64(k.I[0])<<8|uint64(maxLen)))
 }
 
+// oracle "copies": I=[seed, n] — two Count VALUES. Besides the usual operations on either
+// one, a value is assigned to the other (snapshot / rollback / template copy: Count is a
+// plain struct and callers copy it). The two are independent afterwards: an operation on one
+// must not show through the other. All views of both are read after every step.
+func c11Copies(c *core.Ctx, k *core.Case) {
+	r := prng.New(uint64(k.I[0]))
+	var obj [2]security.Count
+	var model [2]uint32
+	var trail []string
+	for i := 0; i < int(k.I[1]); i++ {
+		w := r.Intn(2)
+		var what string
+		switch x := r.Intn(12); {
+		case x < 2:
+			obj[w] = obj[1-w] // value copy
+			model[w] = model[1-w]
+			what = fmt.Sprintf("c%d=c%d", w, 1-w)
+		case x < 4:
+			a, b := uint16(r.Uint32()), r.Byte()
+			model[w] = c11Mutate(&obj[w], 0, a, b, model[w])
+			what = fmt.Sprintf("c%d.Set(%#x,%#x)", w, a, b)
+		case x < 6:
+			b := r.Byte()
+			model[w] = c11Mutate(&obj[w], 1, 0, b, model[w])
+			what = fmt.Sprintf("c%d.SetSQN(%#x)", w, b)
+		case x < 8:
+			a := uint16(r.Uint32())
+			model[w] = c11Mutate(&obj[w], 2, a, 0, model[w])
+			what = fmt.Sprintf("c%d.SetOverflow(%#x)", w, a)
+		case x < 10:
+			model[w] = c11Mutate(&obj[w], 3, 0, 0, model[w])
+			what = fmt.Sprintf("c%d.AddOne()", w)
+		default:
+			what = fmt.Sprintf("read c%d", w)
+		}
+		trail = append(trail, what)
+		if len(trail) > 8 {
+			trail = trail[1:]
+		}
+		// what the step touched is read first, then the other value
+		for _, j := range []int{w, 1 - w} {
+			if msg := c11FinalRead(&obj[j], i+j, model[j]); msg != "" {
+				sig := "copies-mismatch:own"
+				if j != w {
+					sig = "copies-mismatch:other-value-changed"
+				}
+				c.Fail(k, sig, fmt.Sprintf("step %d, last steps %v: value c%d reads %s", i, trail, j, msg))
+				return
+			}
+		}
+	}
+	c.Eval(int64(k.I[1]))
+	c.Count("copy_histories", 1)
+}
+
 var c11RunLens = []int{1, 2, 3, 127, 128, 129, 255, 256, 257, 511, 512, 32767, 32768, 32769, 65535, 65536, 65537, 131071, 131072, 131073}
 
 // oracle "blind-runs": I=[overflow0, sqn0, seed, segments, mix, long] — segments of
@@ -411,7 +466,7 @@ func init() {
 			"states are reached through the public Set(overflow, sqn); the unexported field is never written directly",
 			"bits 24..31 of the internal word are unobservable and not judged",
 		},
-		Oracles: map[string]func(*core.Ctx, *core.Case){"history": c11History, "sweep": c11Sweep, "blind-seq": c11BlindSeq, "blind-enum": c11BlindEnum, "blind-runs": c11BlindRuns},
+		Oracles: map[string]func(*core.Ctx, *core.Case){"history": c11History, "sweep": c11Sweep, "blind-seq": c11BlindSeq, "blind-enum": c11BlindEnum, "blind-runs": c11BlindRuns, "copies": c11Copies},
 		Exhaustive: func(tier string) (bool, string) {
 			return true, "the increment relation and the value/overflow/sqn identity are checked from all 2^24 states; operation sequences are sampled"
 		},
@@ -480,6 +535,15 @@ func init() {
 			si := si
 			us = append(us, core.Unit{Name: fmt.Sprintf("blind-enum-%02d", si), Weight: 8, Run: func(c *core.Ctx) {
 				c.Do(&core.Case{Oracle: "blind-enum", Target: "security.Count", I: []int64{int64(si), int64(c.Pick(4, 5))}})
+			}})
+		}
+		for u := 0; u < 8; u++ {
+			us = append(us, core.Unit{Name: fmt.Sprintf("copies-%02d", u), Weight: 8, Run: func(c *core.Ctx) {
+				for i := 0; i < c.Pick(300, 10000); i++ {
+					k := &core.Case{Oracle: "copies", Target: "security.Count", I: []int64{int64(c.R.Uint64() >> 1), int64(c.R.Range(3, 60))}}
+					c.Do(k)
+					c.NonTrivial(k.Hash())
+				}
 			}})
 		}
 		for u := 0; u < 16; u++ {
